@@ -7,6 +7,7 @@ package main
 // with the symbolic run of HcModel/SpecController.lean over the labels regenerated from /repo.
 
 import (
+	"sync"
 	"os"
 	"time"
 	"bytes"
@@ -155,7 +156,21 @@ func c04Run(c *Ctx, id string, r *rand.Rand, idx int, codeOk, forceLeadingZeroA,
 			}
 		}
 	}
-	sr := refPairSetup(rr, cl.Post(), fmtPin(ctrlPin), ident)
+	setupPost := cl.Post()
+	if idx == 3 && codeOk {
+		// a user who needs a while to type the setup code: more than ten seconds pass between the start response and the
+		// proof message (one run; the others go on meanwhile)
+		inner, n := setupPost, 0
+		setupPost = func(path string, body []byte) (int, []byte, error) {
+			if n++; n == 2 {
+				time.Sleep(10500 * time.Millisecond)
+			}
+			return inner(path, body)
+		}
+		input["pause_before_the_proof_message_s"] = 10.5
+		c.Hist("slow user")
+	}
+	sr := refPairSetup(rr, setupPost, fmtPin(ctrlPin), ident)
 	database, _ := db.NewDatabase(dir)
 	ent, eerr := database.EntityWithName(ctrlID)
 	storedOK := eerr == nil && eqBytes(ent.PublicKey, ident.Pub) && ent.Name == ctrlID
@@ -297,6 +312,83 @@ func c04Run(c *Ctx, id string, r *rand.Rand, idx int, codeOk, forceLeadingZeroA,
 				break
 			}
 			c.Hist("straddling record")
+		}
+	}
+	if codeOk && sr.ErrAt == "" && keys && idx%6 == 0 {
+		// two controllers (two connections of the paired one) verify at the same time: both start requests are answered
+		// before either finish request is sent
+		ca, erra := acc.Dial()
+		cb, errb := acc.Dial()
+		if erra == nil && errb == nil {
+			started := make(chan struct{}, 2)
+			both := make(chan struct{})
+			go func() { <-started; <-started; close(both) }()
+			gate := func(p postFn) postFn {
+				n := 0
+				return func(path string, body []byte) (int, []byte, error) {
+					n++
+					if n == 2 {
+						select {
+						case <-both:
+						case <-time.After(5 * time.Second):
+						}
+					}
+					st, b, err := p(path, body)
+					if n == 1 {
+						started <- struct{}{}
+					}
+					return st, b, err
+				}
+			}
+			res := make([]*verifyResult, 2)
+			var wg sync.WaitGroup
+			for k, cx := range []*refClient{ca, cb} {
+				wg.Add(1)
+				go func(k int, cx *refClient) {
+					defer wg.Done()
+					res[k] = refPairVerify(rand.New(rand.NewSource(int64(idx*2+k))), gate(cx.Post()), ident, accLTPK)
+				}(k, cx)
+			}
+			wg.Wait()
+			for k := range res {
+				if res[k].Shared == nil {
+					keys = false
+					c.Violate("paired specification controller cannot complete pair-verify while another connection is in the middle of its own", id,
+						map[string]interface{}{"run": input, "order": "start(c1) start(c2) finish(c1) finish(c2)"}, "both verified", fmt.Sprintf("connection %d: %s", k+1, res[k].ErrAt))
+				}
+			}
+			c.Hist("interleaved pair-verify of two connections")
+		}
+		if ca != nil {
+			ca.Close()
+		}
+		if cb != nil {
+			cb.Close()
+		}
+	}
+	if codeOk && sr.ErrAt == "" && keys && idx%6 == 4 {
+		// the user resets the controller and pairs it again: same identifier, a new long-term key
+		ident2 := newRefIdentity(r, ctrlID)
+		if cp, err := acc.Dial(); err == nil {
+			sr2 := refPairSetup(r, cp.Post(), fmtPin(pin), ident2)
+			cp.Close()
+			if sr2.ErrAt != "" {
+				c.Violate("specification controller cannot pair again under its identifier with a new key", id, input, "paired", sr2.ErrAt)
+			} else {
+				cn, _ := acc.Dial()
+				if vn := refPairVerify(r, cn.Post(), ident2, sr2.AccLTPK); vn.Shared == nil {
+					keys = false
+					c.Violate("paired specification controller cannot complete pair-verify (it paired again under its identifier with a new key, after it had verified with the old one)", id, input, "verified with the new key", vn.ErrAt)
+				}
+				cn.Close()
+				co, _ := acc.Dial()
+				if vo := refPairVerify(r, co.Post(), ident, sr2.AccLTPK); vo.Shared != nil {
+					c.Violate("unpaired controller completed pair-verify", id, map[string]interface{}{"run": input, "key": "the one the identifier had before it was paired again"}, "error", "verified")
+				}
+				co.Close()
+				ident = ident2
+			}
+			c.Hist("paired again with a new key")
 		}
 	}
 	if codeOk && sr.ErrAt == "" && keys {
